@@ -40,6 +40,10 @@ class _Topo:
         self.t = np.vstack([np.arange(rd.nnodes), np.arange(rd.nnodes) + 1]).T
         self.t2e = np.vstack([np.arange(rd.nedges), np.arange(rd.nedges) + 1]).T if rd.nedges else None
         self.t2f = np.vstack([np.arange(rd.nfacets), np.arange(rd.nfacets) + 1]).T
+        self._dim = rd.dim()
+
+    def dim(self):
+        return self._dim
 
 
 def semantic_local_names(e):
@@ -66,6 +70,9 @@ def names_check(ctx, fn, label, e):
     try:
         d = D.Dofs(_Topo(rd), e)
     except Exception as ex:
+        if "_Topo" in str(ex):
+            # the stub topology lacks something Dofs now reads: a limit of this harness, not a refutation
+            raise
         ctx.fact("names/%s/dofs" % label, fn, False, "Dofs raised %s: %s" % (type(ex).__name__, ex))
         return
     sem = semantic_local_names(e)
